@@ -134,6 +134,7 @@ LABELSETS = [
     ("int-negative", lambda k: numpy.array([-4, -1, 0, 2, 9, 10][:k])),
     ("str-U", lambda k: numpy.array(["u", "v", "w", "x", "y", "z"][:k])),
     ("str-object", lambda k: numpy.array(["bb", "a", "cc", "dd", "e", "ff"][:k], dtype=object)),
+    ("str-unequal-length", lambda k: numpy.array(["no", "yes", "perhaps", "a", "absolutely", "x"][:k])),
 ]
 
 
